@@ -516,9 +516,18 @@ def rule_peg_tables(ctx):
     # fill+align before bare align
     fs = rules["format_spec"]
     st = {v: p for v, p, r in fs.steps}
+
+    def deref(n_, depth=0):
+        """follow references to helper grammar functions (a sub-parser extracted into its own fn)"""
+        while n_ is not None and n_.k == "ref" and n_.name in rules and depth < 5:
+            n_ = rules[n_.name]
+            depth += 1
+        return n_
+
     al = st.get("align")
     ctx.instance("format_spec:align")
-    ok = al is not None and al.k == "opt" and al.p.k == "alt" and len(al.p.items) == 2 and al.p.items[0].k == "bind" and al.p.items[0].p.k == "anyv"
+    alp = deref(al.p) if al is not None and al.k == "opt" else None
+    ok = alp is not None and alp.k == "alt" and len(alp.items) == 2 and deref(alp.items[0]).k == "bind" and deref(alp.items[0]).p.k == "anyv"
     if not ok:
         ctx.report("fill-align-order", ctx.where(f, ex.fns["format_spec"].node), "`format_spec` does not try `fill align` (any char followed by an alignment) before a bare alignment", {})
     # 0 flag guarded against `0$`
@@ -526,7 +535,8 @@ def rule_peg_tables(ctx):
     ctx.instance("format_spec:zero")
     ok = False
     if zp is not None and zp.k == "opt":
-        x = zp.p.p if zp.p.k == "map" else zp.p
+        x = deref(zp.p)
+        x = deref(x.p) if x.k == "map" else x
         if x.k == "seq" and len(x.items) == 2 and x.items[0].k == "lit" and x.items[0].s == "0" and x.items[1].k == "and" and x.items[1].p.k == "cls" and x.items[1].p.pred == ("notin", "$"):
             ok = True
     if not ok:
